@@ -24,19 +24,19 @@ const (
 )
 
 type GenOpts struct {
-	Reps       bool     // restrict production menus to the class representatives (deep chains)
-	LeafSet    int      // 0 = full leaf alphabet, 1 = reduced, 2 = minimal
-	FieldNames []string // pool of user field names (nil = default pool)
-	DB, Coll   string   // namespace of the line
-	AuxColls   []string // secondary collections ($lookup.from …)
-	Slots      []int    // restrict to these slot numbers (nil = all)
-	AllGates   bool     // also generate the gates outside the claim
-	OneGate    bool     // only gate 0 / container 0 (used by deep layers)
-	RichEnv    bool     // rich envelope (arrays of arrays of documents, escape-heavy strings)
-	PlanSummary string
+	Reps          bool     // restrict production menus to the class representatives (deep chains)
+	LeafSet       int      // 0 = full leaf alphabet, 1 = reduced, 2 = minimal
+	FieldNames    []string // pool of user field names (nil = default pool)
+	DB, Coll      string   // namespace of the line
+	AuxColls      []string // secondary collections ($lookup.from …)
+	Slots         []int    // restrict to these slot numbers (nil = all)
+	AllGates      bool     // also generate the gates outside the claim
+	OneGate       bool     // only gate 0 / container 0 (used by deep layers)
+	RichEnv       bool     // rich envelope (arrays of arrays of documents, escape-heavy strings)
+	PlanSummary   string
 	UnlistedNames []string // pool for field names in positions C15 does not list ($group / $project / $addFields keys, search paths)
-	MatchPool  []string // C14: names that match the configured regexp (nil = feature off)
-	NamePatterns bool   // C14: a free choice of which generated names are taken from MatchPool
+	MatchPool     []string // C14: names that match the configured regexp (nil = feature off)
+	NamePatterns  bool     // C14: a free choice of which generated names are taken from MatchPool
 }
 
 type Case struct {
@@ -71,7 +71,7 @@ type Gen struct {
 	aux     int
 	focus   []*LNode // the SECRET nodes produced by leaf() (the focused literals of the derivation)
 	pattern int      // C14: which names match (see namePatterns)
-	fnl     bool // user field names generated now are in a position C15 lists (query / update / insert / sort / $match)
+	fnl     bool     // user field names generated now are in a position C15 lists (query / update / insert / sort / $match)
 }
 
 var defaultFieldNames = []string{"fld", "status", "createdAt", "owner", "tags", "qty", "score2", "addr"}
@@ -109,6 +109,7 @@ func (g *Gen) fname() string {
 	g.fni++
 	return n
 }
+
 var defaultUnlistedNames = []string{"outA", "outB", "outC", "outD", "outE", "outF"}
 
 // uname: a user field name for a position the field-name property does not list
@@ -824,9 +825,15 @@ func init() {
 			}
 			return LO("$regexMatch", LO("input", g.E(), "regex", g.sec()))
 		}},
-		{"$replaceOne", false, func(g *Gen) *LNode { return LO("$replaceOne", LO("input", g.ref(), "find", g.E(), "replacement", g.sec())) }},
-		{"$convert", false, func(g *Gen) *LNode { return LO("$convert", LO("input", g.ref(), "to", LS("int").DC(), "onError", g.E(), "onNull", g.sec())) }},
-		{"$setField", false, func(g *Gen) *LNode { return LO("$setField", LO("field", LS("f").DC(), "input", LS("$$ROOT").DC(), "value", g.E())) }},
+		{"$replaceOne", false, func(g *Gen) *LNode {
+			return LO("$replaceOne", LO("input", g.ref(), "find", g.E(), "replacement", g.sec()))
+		}},
+		{"$convert", false, func(g *Gen) *LNode {
+			return LO("$convert", LO("input", g.ref(), "to", LS("int").DC(), "onError", g.E(), "onNull", g.sec()))
+		}},
+		{"$setField", false, func(g *Gen) *LNode {
+			return LO("$setField", LO("field", LS("f").DC(), "input", LS("$$ROOT").DC(), "value", g.E()))
+		}},
 		{"$let", false, func(g *Gen) *LNode {
 			if g.x.Free(2, "let focus") == 0 {
 				return LO("$let", LO("vars", LO("v", g.E()), "in", LS("$$v").DC()))
@@ -885,7 +892,9 @@ func init() {
 				return LO("$reduce", LO("input", g.ref(), "initialValue", g.sec(), "in", g.E()))
 			}
 		}},
-		{"$zip", false, func(g *Gen) *LNode { return LO("$zip", LO("inputs", LA(g.E(), g.ref()), "useLongestLength", LB(true).DC(), "defaults", LA(g.sec(), g.sec()))) }},
+		{"$zip", false, func(g *Gen) *LNode {
+			return LO("$zip", LO("inputs", LA(g.E(), g.ref()), "useLongestLength", LB(true).DC(), "defaults", LA(g.sec(), g.sec())))
+		}},
 		{"$sortArray", false, func(g *Gen) *LNode { return LO("$sortArray", LO("input", g.E(), "sortBy", LN("1").DC())) }},
 		{"$firstN", false, func(g *Gen) *LNode { return LO("$firstN", LO("n", LN("2").DC(), "input", g.E())) }},
 		{"sub-document", true, func(g *Gen) *LNode { return g.objVariant(g.Fn(), g.E()) }},
@@ -916,12 +925,16 @@ func init() {
 		return LA(LO("text", LO("query", g.sec(), "path", LS("bio").DC())), g.S())
 	}
 	sProds = []prod{
-		sq("text", func(g *Gen) []any { return []any{"fuzzy", LO("maxEdits", LN("1")).DC(), "score", LO("boost", LO("value", LN("2"))).DC()} }),
+		sq("text", func(g *Gen) []any {
+			return []any{"fuzzy", LO("maxEdits", LN("1")).DC(), "score", LO("boost", LO("value", LN("2"))).DC()}
+		}),
 		sq("phrase", func(g *Gen) []any { return []any{"slop", LN("2").DC()} }),
 		sq("autocomplete", func(g *Gen) []any { return []any{"tokenOrder", LS("any").DC()} }),
 		sq("wildcard", func(g *Gen) []any { return []any{"allowAnalyzedField", LB(true).DC()} }),
 		sq("regex", nil),
-		{"queryString", false, func(g *Gen) *LNode { return LO("queryString", LO("defaultPath", LS("bio").DC(), "query", g.leaf(MStr))) }},
+		{"queryString", false, func(g *Gen) *LNode {
+			return LO("queryString", LO("defaultPath", LS("bio").DC(), "query", g.leaf(MStr)))
+		}},
 		{"equals", false, func(g *Gen) *LNode {
 			if g.x.Free(2, "path/value order") == 0 {
 				return LO("equals", LO("path", LS(g.uname()).DC(), "value", g.leaf(MStr|MBool|MNum|MDate|MOid|MNull)))
